@@ -42,6 +42,16 @@ CHECKS["C04"] = dict(engine="X", technique=X, design="§4 C04",
                      text="Bounded symbolic model checking: relative_to_absolute against CPython's own importlib._bootstrap._resolve_name for every level 0..3 (4), module depth <= 3, package-or-module, from-module text; every import form through Visitor.visit_import/visit_importfrom with symbolic names (collisions with the current module and package found by solving); ExprName.canonical_path for a solver-chosen name from every scope of a small package (module, class body, nested class body, method signatures) against Python's scoping rule; attribute chains a.b.c.",
                      note="Trusted: CrossHair models + z3; the reference scoping rule (class bodies are not enclosing scopes; module globals are outermost). Known finding: nested classes see enclosing-class members (region excluded).")
 
+CHECKS["C05"] = dict(engine="X", technique=X, design="§4 C05",
+                     text="Bounded symbolic model checking: a package built in memory (pkg/__init__ star-importing and optionally explicitly importing from submodule s, s optionally star-importing from t; optional __all__ in s and in pkg, also assembled as s.__all__ + [...]) is run through the real Visitor, expand_exports, expand_wildcards and resolve_aliases with the line numbers that decide wildcard-vs-local precedence symbolic and every name case-split by the engine; the visible names and the defining object of each must equal a reference model of CPython's import namespace, validated against a real interpreter importing the package from disk (grid + every counterexample); resolved aliases present their targets with member paths rebased.",
+                     note="Trusted: CrossHair models + z3; the reference namespace model (validated against a real `import pkg` in a subprocess on the grid and on every counterexample); hand-built ASTs.")
+CHECKS["C11"] = dict(engine="X", technique=X, design="§4 C11",
+                     text="Bounded symbolic model checking of find_breaking_changes on two-version histories: one object of each kind exposed directly / through a re-export from a private module / as a class member / as an inherited member, edited by each catalogue entry (remove, re-kind, incompatible change; identity, add public object, add optional keyword parameter, reorder), with the object's name and the module's __all__ symbolic so that the public/private frontier is crossed by solving; unresolvable and cyclic re-exports are skipped; Breakage.explain in all four styles; `griffe check` exit status.",
+                     note="Trusted: CrossHair models + z3; the reference visibility table (the same as C01's). Known finding: changes seen through a re-export are located at the private canonical path (region excluded).")
+CHECKS["C13"] = dict(engine="X", technique=X, design="§4 C13",
+                     text="Bounded symbolic model checking: section layouts from a catalogue (10 for Google/Numpy, 5 for Sphinx) rendered in well-formed syntax with symbolic holes (item names, descriptions with an embedded colon or a continuation line, admonition title), parsed by the real parsers; parsed sections must equal the written structure (kinds in written order for Google/Numpy, names, annotations, signature fallbacks, descriptions, titles, no leaks).",
+                     note="Trusted: CrossHair models + z3; regexes run by CPython's re on the realised line; docstring handed over pre-split; renderers written from docs/reference/docstrings.md. A trailing newline in a Numpy description (the separator line) is not counted as a difference.")
+
 NOT_APPLICABLE = [
     {"property_id": "C17", "reason": "static-vs-dynamic agreement needs importlib/inspect on live objects of concrete executable modules: nothing symbolic survives the import boundary, so a solver could only enumerate program texts (enumeration, not solving). See DESIGN.md §5."},
 ]
